@@ -136,6 +136,7 @@ struct World {
     /// tracers created by the factory (children), in creation order
     factory_tracers: Vec<u32>,
     tracer_thread: HashMap<u32, u64>,
+    tracer_thread_name: HashMap<u32, String>,
     xrecv: HashMap<u32, u64>,
     /// number of `xq:` marks (self-sends announced by the document) in this case
     selfsends: u64,
@@ -216,6 +217,7 @@ pub fn begin_case() -> u64 {
     w.gates.clear();
     w.factory_tracers.clear();
     w.tracer_thread.clear();
+    w.tracer_thread_name.clear();
     w.xrecv.clear();
     w.selfsends = 0;
     w.overflow = false;
@@ -300,7 +302,7 @@ fn interesting(what: &str) -> bool {
 impl Tracer for RecTracer {
     fn trace(&self, msg: &str) {
         push(self.epoch, self.id, Ev::Trace(msg.to_string()));
-        if msg.starts_with("Referenced state") {
+        if msg.starts_with("Referenced state") || msg.starts_with("No <scxml>") {
             // Fsm::valid() failed: interpret() returns without further trace calls
             let mut w = lock();
             if w.epoch == self.epoch {
@@ -329,6 +331,7 @@ impl Tracer for RecTracer {
             let mut w = lock();
             if w.epoch == self.epoch {
                 w.tracer_thread.insert(self.id, tid());
+                w.tracer_thread_name.insert(self.id, std::thread::current().name().unwrap_or("?").to_string());
             }
             if self.latch {
                 let deadline = Instant::now() + Duration::from_secs(30);
@@ -660,6 +663,12 @@ pub fn factory_tracers() -> Vec<u32> {
     lock().factory_tracers.clone()
 }
 
+/// (thread name, finished) of every session whose interpret() started in this case
+pub fn session_threads() -> Vec<(String, bool)> {
+    let w = lock();
+    w.tracer_thread_name.iter().map(|(t, n)| (n.clone(), w.finished.contains(t))).collect()
+}
+
 pub fn tracer_thread(tracer: u32) -> Option<u64> {
     lock().tracer_thread.get(&tracer).cloned()
 }
@@ -703,5 +712,37 @@ pub fn wait_quiescent(tracer: u32, sent: u64, timeout: Duration) -> Wait {
             Ok((g, _)) => g,
             Err(p) => p.into_inner().0,
         };
+    }
+}
+
+/// Waits until the session is blocked in its external queue having consumed at least `min_consumed`
+/// external events, and stays like that for `stable`; for documents that send events to themselves
+/// without announcing them.
+pub fn wait_idle_stable(tracer: u32, min_consumed: u64, stable: Duration, timeout: Duration) -> Wait {
+    let deadline = Instant::now() + timeout;
+    loop {
+        {
+            let w = lock();
+            if w.finished.contains(&tracer) {
+                return Wait::Finished;
+            }
+            if w.overflow {
+                return Wait::Timeout;
+            }
+        }
+        let snap = |w: &World| (*w.xrecv.get(&tracer).unwrap_or(&0), *w.idle.get(&tracer).unwrap_or(&0));
+        let (x, i) = snap(&lock());
+        if i == x + 1 && x >= min_consumed {
+            std::thread::sleep(stable);
+            let (x2, i2) = snap(&lock());
+            if x2 == x && i2 == i {
+                return Wait::Idle;
+            }
+            continue;
+        }
+        if Instant::now() >= deadline {
+            return Wait::Timeout;
+        }
+        std::thread::sleep(Duration::from_millis(2));
     }
 }
